@@ -97,10 +97,10 @@ def units(tier):
             names = {n.id for n in ast.walk(pi.node) if isinstance(n, ast.Name)} if pi else set()
             deco = [d for d in (pi.decorators if pi else [])]
             obs.append(Obligation(f"{PROP}/{cname}/guard_reads_only_the_device_type", ctx, pi is not None and names <= allowed and not deco,
-                                  note=f"other names read: {sorted(names - allowed)} decorators: {deco}"))
+                                  note=f"other names read: {sorted(names - allowed)} decorators: {deco}", prop_level=False))
         for mn in ("aioswitcher.device", "aioswitcher.api", "aioswitcher.bridge"):
             m = P().modules[mn]
-            obs.append(Obligation(f"{PROP}/static/{mn}/no_global_or_nonlocal", ctx, not m.has_global_stmt))
+            obs.append(Obligation(f"{PROP}/static/{mn}/no_global_or_nonlocal", ctx, not m.has_global_stmt, prop_level=False))
         # default construction of the public objects leaves the tables alone
         from pyvc.interp import EnvObj
         b = ip.instantiate(cls("aioswitcher.bridge.SwitcherBridge"), [EnvObj("callback")], {}, ctx)
